@@ -750,7 +750,11 @@ def planSeekPage (ph : Phys) (t : Tab) (pos : Int) : SeekPlan :=
   if b.err ≠ 0 then .fail b.err b.cur
   else if b.best = -1 then
     if b.gotPage ∧ b.begin_ = t.dataoffsets[link]! ∧ b.og.serial = serial then
-      verdict b.cur (({ serial := serial } : OStream).pagein b.og) total
+      -- the page in hand need not be the first data page (one that completes no packet has no granule position and is passed over
+      -- by the search): the first data page is fetched again (repair F36)
+      let (r, og, c) := nextPage ph (seekCur t.dataoffsets[link]!) (-1)
+      if r < 0 then .fail r c
+      else verdict c (({ serial := serial } : OStream).pagein og) total
     else .fail b.res b.cur            -- `result` may hold a page offset or 0 here: not an error code
   else
     let (r, og, c) := nextPage ph (seekCur b.best) (-1)
